@@ -4,6 +4,7 @@ from harness import wavecheck as wk, waveoracle as wo, wavesim_corr as wc
 
 THEOREMS = ['C04_emit_is_sum', 'C04_shift_equivariant', 'C04_scale_equivariant', 'C04_mono_polarity_free', 'C04_sta_window',
             'C04_circuit_shift', 'C04_circuit_scale', 'C04_circuit_shift_inputs', 'C04_circuit_scale_inputs', 'C04_circuit_mono']
+THEOREMS += ['C04_kernel_source_is_model', 'C04_source_emit_is_sum']   # source tie of the merge kernel (Gen/WaveEvalSrc.v)
 
 
 def finite_mask(m):
@@ -124,6 +125,7 @@ def dataset_stress(ck, n):
 
 
 def run(ck):
+    wk.regen_kernel(ck)
     if THEOREMS:
         ck.prove('C04', THEOREMS)
     fails, mism = wk.campaign(ck, ck.scale(60, 1500), oracle, gen_kw={'extra_prob': 0.6, 'strip_prob': 0.25}, coq_lanes=1, coq_every=2, line_level=True)
